@@ -252,25 +252,25 @@ def gen_cases(ctx, n):
                 q["ngpu"], q["adapter"], q["ctx"], q["ka"] = -1, 0, 2048, rng.choice([-1, 1000])
             c["max"], c["pfail"] = rng.choice([0, 2, 3]), 0.0
             v_ = rng.random()
-            if v_ < 0.3:
+            if v_ < 0.25:
                 # the next model fits with one slot but not with the four the scheduler tries first
                 c["models"][0]["edge_par"] = 4
                 c["par"] = rng.choice([0, 0, 4])
-            elif v_ < 0.5:
+            elif v_ < 0.45:
                 # CPU inference: system memory left is enough for one slot but not for the slots the scheduler uses
                 c["par"] = rng.choice([0, 0, 4, 2])
                 c["models"][0].update({"edge_par": c["par"] or 4, "edge_cpu": True})
                 for q in c["reqs"]:
                     q["ngpu"] = 0
                 c["force_direct"] = True
-            elif v_ < 0.7:
+            elif v_ < 0.8:
                 # flash attention + quantised KV cache requested, GPUs support it, the second model cannot use it:
                 # the memory left is enough with the quantised cache but not with the f16 cache it is started with
                 kvt = rng.choice(["q8_0", "q4_0"])
-                c["fa"], c["kv_type"], c["par"] = True, kvt, rng.choice([1, 1, 2])
+                c["fa"], c["kv_type"], c["par"] = True, kvt, 1      # a model with a pooling_type is always started with one slot
                 c["models"][0]["edge_kv"] = kvt
                 c["models"][1].update({"name": "m1nofa", "nofa": True})
-                if rng.random() < 0.3:
+                if rng.random() < 0.2:
                     c["models"][1].update({"name": "m1", "nofa": False})      # a model that can: the quantised cache is right
                 c["force_direct"] = True
         if c["klass"] != "queue" and not c.pop("force_direct", False) and rng.random() < 0.5:
@@ -436,6 +436,24 @@ def monitor(case, o):
         for q in submitted:
             if replies.get(q, 0) == 0 and q not in cancelled_before_reply(o, q):
                 v["C02"].append(({"class": "unanswered"}, "request %d was never answered" % q))
+    # a runner that a request is using stays in the scheduler's table: removing it ("unloading" it from the bookkeeping)
+    # lets the next request start a second server for the model and books the holder's finish on the wrong runner
+    g_, canc_, closed_ = {}, set(), set()
+    for i, s_ in enumerate(o["steps"]):
+        for e in s_["ev"]:
+            if e[0] == "reply" and e[2] == "ok":
+                g_[e[1]] = e[3]
+            elif e[0] == "cancel":
+                canc_.add(e[1])
+            elif e[0] == "close":
+                closed_.add(e[1])
+        bad = [(q, rid) for q, rid in g_.items() if q not in canc_ and rid not in closed_ and rid in started
+               and s_["st"]["ld"].get(str(started[rid][0])) != rid]
+        if bad:
+            q, rid = bad[0]
+            v["C01"].append(({"class": "unregistered-in-use"}, "step %d: runner r%d is no longer in the scheduler's table of loaded runners (%s) while request %d still uses it"
+                             % (i, rid, s_["st"]["ld"], q)))
+            break
     # needless reload: the pending loop (goroutine Run.go1#k of the instrumented sched.go) zeroes the keep-alive of a live
     # runner r - which it only does to reload r or to make room - although no unanswered request is for another
     # model, every unanswered request for r's model is compatible with r, no ping of r failed for this request and r's
@@ -685,7 +703,7 @@ def detect_variant(ctx, cases, obs):
 def run_group(ctx, pid, ncases=None, only_cases=None):
     ctx.rule = ("cases: corpus of minimal past failures first, then random schedules of submit / cancel / load-ok / load-fail / ping-fail / tick / "
                 "explicit unload and of the scheduler's own goroutines (one synchronisation operation at a time) over <= 3 models and <= 6 requests, "
-                "classes random / handover-cancel / expiry-race / reuse / queue / join-during-load / twogpu / fit; non-trivial = at least one runner was started and one request answered; "
+                "classes random / cycles / dup-expiry-reload / handover-cancel / expiry-race / reuse / queue / join-during-load / twogpu / fit (GPU, CPU, KV-cache variants); non-trivial = at least one runner was started and one request answered; "
                 "distinct = by the observed choice sequence")
     ctx.trusted = ["Coq 8.16.1 kernel + vm_compute", "hand-written LTS coq/Sched/Lts.v tied to server/sched.go by the conformance run only",
                    "the instrumenter harness/instr (adds yield points, resolves select nondeterminism, swaps sync.Mutex for a channel-backed mutex)",
